@@ -164,17 +164,26 @@ func checkBytes(r *mon.Run, tg *target, b []byte, ri *refInfo, o byteOpts) (acce
 	nontrivial(r, tg, b, o.origin)
 	// (3) grammar
 	if tg.Raw {
-		// documented: content of RawValues is not verified; the outer header(s) the decoder did read must be canonical
-		if ri.shErr != nil || len(ri.shRest) != 0 {
+		// A raw value is an opaque pass-through whose value IS its encoding (re-encode identity holds
+		// trivially), so the property does not demand the single-byte rule of it: a 0x81-prefixed byte
+		// < 0x80 taken by Stream.Raw is counted (informational), not reported. Every other defect of a
+		// header the decoder did read (size form, trailing data) is still a violation.
+		switch {
+		case ri.shErr != nil && ri.shErr.Code == rlpref.ESingleByte && len(b) == 2:
+			rawPrefixedInfo(r, "DecodeBytes into "+tg.Name, b)
+		case ri.shErr != nil || len(ri.shRest) != 0:
 			code := rlpref.ETrailing
 			if ri.shErr != nil {
 				code = ri.shErr.Code
 			}
 			viol(r, tsig("grammar", tg, code), c, "DecodeBytes(%x) into %s accepted an item whose outermost header is not canonical (%s)", clip(b), tg.Name, code)
-		} else if ri.shallow.Kind == rlpref.List && tg.Name != "rlp.RawValue" {
+		case ri.shallow.Kind == rlpref.List && tg.Name != "rlp.RawValue":
 			// list of raw values: the element headers were read by the decoder as well
-			if _, e := rlpref.Count(ri.shallow.Content); e != nil {
-				viol(r, tsig("grammar", tg, "element:"+e.Code), c, "DecodeBytes(%x) into %s accepted a list with a non-canonical element header (%s)", clip(b), tg.Name, e.Code)
+			ok, code, prefixed := rawElems(ri.shallow.Content)
+			if !ok {
+				viol(r, tsig("grammar", tg, "element:"+code), c, "DecodeBytes(%x) into %s accepted a list with a non-canonical element header (%s)", clip(b), tg.Name, code)
+			} else if prefixed > 0 {
+				rawPrefixedInfo(r, "DecodeBytes into "+tg.Name+" (element)", b)
 			}
 		}
 	} else if !ri.exact {
@@ -336,10 +345,18 @@ func checkUntyped(r *mon.Run, b []byte, ri *refInfo, origin string) {
 				code = "leading-zero-integer"
 			}
 		case 2:
+			// elements are taken with Stream.Raw: opaque pass-through, the single-byte rule is not
+			// demanded of them (informational counter); everything else about their headers is
 			wantOK = ri.shErr == nil
 			if wantOK && ri.shallow.Kind == rlpref.List {
-				if _, e := rlpref.Count(ri.shallow.Content); e != nil {
-					wantOK, code = false, e.Code
+				ok, ecode, prefixed := rawElems(ri.shallow.Content)
+				if !ok {
+					wantOK, code = false, ecode
+				} else if prefixed > 0 {
+					if err != nil {
+						continue // a decoder that enforces the rule here as well is equally fine
+					}
+					rawPrefixedInfo(r, "Stream.Raw", b)
 				}
 			} else if !wantOK {
 				code = ri.shErr.Code
@@ -360,6 +377,31 @@ func checkUntyped(r *mon.Run, b []byte, ri *refInfo, origin string) {
 			}
 		}
 	}
+}
+
+// rawElems scans the payload of a list whose elements are taken as raw values:
+// every element header must be canonical except that a 0x81-prefixed byte
+// below 0x80 is tolerated (counted in prefixed).
+func rawElems(p []byte) (ok bool, code string, prefixed int) {
+	for len(p) > 0 {
+		it, rest, err := rlpref.Shallow(p)
+		if err != nil {
+			if err.Code == rlpref.ESingleByte {
+				prefixed++
+				p = p[2:]
+				continue
+			}
+			return false, err.Code, prefixed
+		}
+		_ = it
+		p = rest
+	}
+	return true, "", prefixed
+}
+
+// rawPrefixedInfo: informational only (decision recorded in the C08 follow-up); the parent adds one note.
+func rawPrefixedInfo(r *mon.Run, where string, b []byte) {
+	cnt[c_info_raw_value_prefixed_single_byte_accepted]++
 }
 
 func intClean(it *rlpref.Item) bool {
